@@ -986,6 +986,15 @@ def expr_failures(t, ob, code, obs):
     if code & 16 and t[0] in ("vstack", "dstack") and ob["ctor"] is None and mixed:
         out.append(("stack of operators with different output dtypes is accepted", "ValueError (check_if_stackable)",
                     [ob["osh"], ob["odt"]], "spec e = None"))
+    if t[0] == "drep" and ob["ctor"] is None and len(subs) == 1 and subs[0] and subs[0]["ctor"] is None \
+            and "meta_error" not in subs[0] and not is_nested(subs[0]["ish"]) and not is_nested(subs[0]["osh"]):
+        # documented argument range: input_axis in [-(r+1), r], output_axis (default: the input position) in [-(q+1), q]
+        r, q = len(subs[0]["ish"]), len(subs[0]["osh"])
+        ki = t[3] if t[3] >= 0 else r + 1 + t[3]
+        ko = ki if t[4] is None else (t[4] if t[4] >= 0 else q + 1 + t[4])
+        if not (0 <= ki <= r and 0 <= ko <= q):
+            out.append(("replicated stack with a replication axis outside the operand's rank is accepted", "ValueError",
+                        [ob["ish"], ob["osh"]], "spec e = None (C12_replicated_axes_in_range / C12_replicated_default_axis_rejected)"))
     return out
 
 
@@ -1336,6 +1345,16 @@ def run_malformed(ctx):
         "matrix-1d": lambda: linop.MatrixOperator(snp.ones(3)),
         "drep-axis": lambda: linop.DiagonalReplicated(linop.Identity((3,)), 2, input_axis=3, map_type="vmap"),
         "slice-int-oob": lambda: linop.Slice(5, (4, 5)),
+        # a defaulted output axis (= input position) that does not exist in the operand's output (fix 760899e)
+        "drep-default-axis-sum-last": lambda: linop.DiagonalReplicated(linop.Sum((3, 4), axis=1), 5, input_axis=-1, map_type="vmap"),
+        "drep-default-axis-sum-2": lambda: linop.DiagonalReplicated(linop.Sum((3, 4), axis=1), 5, input_axis=2, map_type="vmap"),
+        "drep-default-axis-rank3": lambda: linop.DiagonalReplicated(
+            linop.LinearOperator((2, 3, 4), eval_fn=lambda x: snp.sum(x, axis=0)), 5, input_axis=3, map_type="vmap"),
+        "drep-default-axis-op": lambda: operator.DiagonalReplicated(
+            operator.Operator((3, 4), eval_fn=lambda x: snp.sum(x * x, axis=0)), 5, input_axis=-1, map_type="vmap"),
+        "drep-output-axis-oob": lambda: linop.DiagonalReplicated(linop.Sum((3, 4), axis=1), 5, input_axis=0, output_axis=2, map_type="vmap"),
+        "drep-output-axis-neg-oob": lambda: linop.DiagonalReplicated(linop.Sum((3, 4), axis=1), 5, input_axis=0, output_axis=-3, map_type="vmap"),
+        "drep-input-axis-neg-oob": lambda: linop.DiagonalReplicated(linop.Identity((3, 4)), 5, input_axis=-4, map_type="vmap"),
     }
     for nm in sorted(bad_ctor):
         inp = {"ctor": nm}
